@@ -121,7 +121,7 @@ def run(ctx):
     if ctx.quick:
         mism = [r for r in recs if r["predicted_mismatch"]]
         rest = [r for r in recs if not r["predicted_mismatch"]]
-        pick = rng.sample(mism, min(25, len(mism))) + rng.sample(rest, min(70, len(rest)))
+        pick = rng.sample(mism, min(20, len(mism))) + rng.sample(rest, min(50, len(rest)))
     else:
         pick = recs
     cases = []
@@ -129,7 +129,7 @@ def run(ctx):
         outs = ["pie", "shared", "staticpie"] if not ctx.quick else [["pie", "shared", "staticpie"][i % 3]]
         for o in outs:
             cases.append(rg.ptr_case(rec, o, got=(i % 2 == 0)))
-    libc_n = 6 if ctx.quick else 40
+    libc_n = 4 if ctx.quick else 40
     for rec in rng.sample(recs, libc_n):
         cases.append(rg.ptr_case(rec, "staticpie-libc", got=True))
     with scratch("c09") as d:
